@@ -523,6 +523,8 @@ class Flow:
 
     def _expand_name(self, n, node, depth, stack):
         nid = n.id if isinstance(n, ast.Name) else dotted(n)
+        if nid in getattr(self, "keep", ()):
+            return n                    # the caller wants this variable kept symbolic
         defs = self.defs_at(node, nid)
         if not defs or depth <= 0:
             return n
